@@ -2,7 +2,7 @@ CONSTANTS
   DEVS = {"NC_MAP_LEFTOVER_OK"}
   NAMES = {"bool", "i8", "u8", "i32", "i64", "u64", "f64", "char", "String", "OptI32", "unit", "Newtype", "VecI32", "VecU8", "TupI32String", "Point", "E",
            "MapStringI32", "VecOptBool", "Outer", "OptE", "VecPoint", "MapUserIdVecU32", "MapCharI32", "MapColorI32", "Flat", "VecUserId", "ArrI32x2",
-           "BoxPoint", "TupUserIdI32", "MapStringOptPoint", "IT", "AT", "UT", "FirstEntry", "VecIT", "Strict", "VecStrict", "ITU", "UTU", "FlatU", "Level", "VecLevel"}
+           "BoxPoint", "TupUserIdI32", "MapStringOptPoint", "IT", "AT", "UT", "FirstEntry", "VecIT", "Strict", "VecStrict", "ITU", "UTU", "FlatU", "Level", "VecLevel", "f32"}
 SPECIFICATION Spec
 INVARIANTS Inv_L1
 CHECK_DEADLOCK FALSE
